@@ -7,8 +7,8 @@ Import ListNotations.
 Local Open Scope Z_scope.
 
 Ltac sfields :=
-  cbn [stk trans wset width hopen hs vs cmds px py moved pend pkind pacc depth hw dhw
-       with_stk with_trans with_width with_hints with_path with_pend with_depth
+  cbn [stk trans wset width hopen hs vs cmds px py moved pend pkind pacc depth hw dhw nsteps
+       with_stk with_trans with_width with_hints with_path with_pend with_depth tick
        clear move line curve enter leave] in *.
 
 (* ------------------------------------------------------------------ *)
@@ -17,7 +17,9 @@ Ltac sfields :=
 Definition keep (st st' : state) : Prop :=
   stk st' = stk st /\ trans st' = trans st /\ depth st' = depth st /\
   hw st' = hw st /\ dhw st' = dhw st /\ pend st' = pend st /\ wset st' = wset st /\
-  width st' = width st.
+  width st' = width st /\ nsteps st' = nsteps st /\
+  hopen st' = hopen st /\ hs st' = hs st /\ vs st' = vs st /\ moved st' = moved st /\
+  pkind st' = pkind st /\ pacc st' = pacc st.
 
 Lemma keep_refl st : keep st st.
 Proof. unfold keep; tauto. Qed.
@@ -31,7 +33,7 @@ Proof. unfold keep; sfields; tauto. Qed.
 Lemma keep_curve st a b c d e f : keep st (curve st a b c d e f).
 Proof. unfold keep; sfields; tauto. Qed.
 
-Lemma keep_with_path st c x y m : keep st (with_path c x y m st).
+Lemma keep_with_path st c x y : keep st (with_path c x y (moved st) st).
 Proof. unfold keep; sfields; tauto. Qed.
 
 Lemma keep_rlines : forall n a st, (length a <= n)%nat -> keep st (rlines st a).
@@ -129,14 +131,15 @@ Proof. unfold Inv; lia. Qed.
 
 Lemma take_width_inv st extra a st1 a1 :
   take_width st extra a = Some (st1, a1) ->
-  (Inv st -> Inv st1) /\ depth st1 = depth st /\ stk st1 = stk st /\ (length a1 <= length a)%nat.
+  (Inv st -> Inv st1) /\ depth st1 = depth st /\ stk st1 = stk st /\ (length a1 <= length a)%nat /\
+  nsteps st1 = nsteps st.
 Proof.
   unfold take_width. destruct extra.
   - destruct (wset st); [discriminate|]. destruct a as [|w a']; [discriminate|].
     intros H; inversion H; subst. split; [apply inv_with_width|].
-    split; [reflexivity|]. split; [reflexivity|]. cbn [length]; lia.
+    split; [reflexivity|]. split; [reflexivity|]. split; [cbn [length]; lia|reflexivity].
   - intros H; inversion H; subst. split; [apply inv_with_width|].
-    split; [reflexivity|]. split; [reflexivity|]. lia.
+    split; [reflexivity|]. split; [reflexivity|]. split; [lia|reflexivity].
 Qed.
 
 Lemma roll_list_length n j l : (n <= length l)%nat -> length (roll_list n j l) = length l.
@@ -150,7 +153,7 @@ Qed.
    stays at the same nesting depth *)
 Definition op_post (st : state) (r : opres) : Prop :=
   match r with
-  | PCont st' | PDone st' | PCall _ _ st' => Inv st' /\ depth st' = depth st
+  | PCont st' | PDone st' | PCall _ _ st' => Inv st' /\ depth st' = depth st /\ nsteps st' = nsteps st
   | _ => True
   end.
 
@@ -158,8 +161,9 @@ Lemma drawing_post st ok f :
   Inv st -> (forall a, keep st (f st a)) -> op_post st (drawing st ok f).
 Proof.
   intros HI Hk. unfold drawing. destruct (negb ok); cbn; auto. destruct (negb (draw_ok st)); cbn; auto.
-  split.
+  split; [|split].
   - apply inv_clear. eapply inv_keep; [apply Hk|assumption].
+  - sfields. apply Hk.
   - sfields. apply Hk.
 Qed.
 
@@ -169,8 +173,8 @@ Proof.
   destruct (length (args st) <? 2)%nat; cbn; auto.
   destruct (negb (hopen st)); cbn; auto.
   destruct (take_width st (Nat.odd (length (args st))) (args st)) as [[st1 a1]|] eqn:E; cbn; auto.
-  apply take_width_inv in E. destruct E as (Hi & Hd & _ & _).
-  destruct v; split; try (apply inv_clear, inv_with_hints; auto); sfields; auto.
+  apply take_width_inv in E. destruct E as (Hi & Hd & _ & _ & Hn).
+  destruct v; (split; [apply inv_clear, inv_with_hints; auto|sfields; auto]).
 Qed.
 
 Lemma do_mask_post c st : Inv st -> op_post st (do_mask c st).
@@ -178,7 +182,7 @@ Proof.
   intros HI. unfold do_mask.
   destruct ((2 <=? length (args st))%nat && negb (hopen st)); cbn; auto.
   destruct (take_width st (Nat.odd (length (args st))) (args st)) as [[st1 a1]|] eqn:E; cbn; auto.
-  apply take_width_inv in E. destruct E as (Hi & Hd & _ & _).
+  apply take_width_inv in E. destruct E as (Hi & Hd & _ & _ & Hn).
   match goal with |- context [if ?c then _ else _] => destruct c end; cbn; auto.
   split; [apply inv_clear, inv_with_pend, inv_with_hints; auto|sfields; auto].
 Qed.
@@ -188,7 +192,7 @@ Proof.
   intros HI. unfold do_moveto.
   match goal with |- context [if ?c then _ else _] => destruct c end; cbn; auto.
   destruct (take_width st _ (args st)) as [[st1 a1]|] eqn:E; cbn; auto.
-  apply take_width_inv in E. destruct E as (Hi & Hd & _ & _).
+  apply take_width_inv in E. destruct E as (Hi & Hd & _ & _ & Hn).
   destruct (f a1) as [[dx dy]|]; cbn; auto.
   split; [apply inv_clear, inv_move; auto|sfields; auto].
 Qed.
@@ -197,13 +201,13 @@ Lemma ranged_post st v r :
   Inv st -> (S (length r) <= length (stk st))%nat -> op_post st (ranged v r st).
 Proof.
   intros HI Hl. unfold ranged. destruct (in_range v); cbn; auto.
-  split; [|reflexivity]. apply inv_with_stk; auto. apply inv_stk_le in HI. cbn; lia.
+  split; [|split; reflexivity]. apply inv_with_stk; auto. apply inv_stk_le in HI. cbn; lia.
 Qed.
 
 Lemma cont_post st s :
   Inv st -> (length s <= length (stk st))%nat -> op_post st (PCont (with_stk s st)).
 Proof.
-  intros HI Hl. cbn. split; [|reflexivity]. apply inv_with_stk; auto. apply inv_stk_le in HI; lia.
+  intros HI Hl. cbn. split; [|split; reflexivity]. apply inv_with_stk; auto. apply inv_stk_le in HI; lia.
 Qed.
 
 Ltac post_leaf HI E :=
@@ -268,23 +272,23 @@ Proof.
     try (arith_case st HI; fail).
   - (* endchar *)
     destruct (length (args st) =? 0)%nat.
-    { cbn. split; [apply inv_with_width; assumption|reflexivity]. }
+    { cbn. split; [apply inv_with_width; assumption|split; reflexivity]. }
     destruct (length (args st) =? 1)%nat.
     { destruct (take_width st true (args st)) as [[st1 a1]|] eqn:E; cbn; auto.
-      apply take_width_inv in E. destruct E as (Hi & Hd & _ & _).
+      apply take_width_inv in E. destruct E as (Hi & Hd & _ & _ & Hn).
       split; [apply inv_clear; auto|sfields; auto]. }
     match goal with |- context [if ?c then _ else _] => destruct c end; cbn; auto.
   - (* put *)
     destruct (stk st) as [|i [|v r]] eqn:E; cbn [op_post]; auto.
     destruct (negb (is_int i)); cbn [op_post]; auto.
     match goal with |- context [if ?c then _ else _] => destruct c end; cbn [op_post]; auto.
-    split; [|reflexivity]. apply inv_with_stk.
+    split; [|split; reflexivity]. apply inv_with_stk.
     + apply inv_with_trans; [assumption|]. rewrite set_nth_length. apply HI.
     + apply inv_stk_le in HI. rewrite E in HI. cbn [length] in HI. lia.
   - (* dup *)
     destruct (stk st) as [|v r] eqn:E; cbn [op_post]; auto.
     unfold push_checked. destruct (length (stk st) <? t2_max_stack)%nat eqn:L; cbn [op_post]; auto.
-    split; [|reflexivity]. apply inv_with_stk; [assumption|].
+    split; [|split; reflexivity]. apply inv_with_stk; [assumption|].
     apply Nat.ltb_lt in L. cbn [length]. lia.
   - (* roll *)
     destruct (stk st) as [|j [|cnt r]] eqn:E; cbn [op_post]; auto.
@@ -337,13 +341,13 @@ Section STEP.
       | S p => go (feed_mask b p st) r
       | O =>
         match lex_num code with
-        | NumOk v rest => pushk v st (fun st' => go st' rest)
-        | NumTrunc => RErr EIncomplete st
+        | NumOk v rest => pushk v (tick st) (fun st' => go st' rest)
+        | NumTrunc => RErr EIncomplete (tick st)
         | NotNum =>
           match lex_op code with
-          | OpOk o rest => run_op o st (fun st' => go st' rest)
-          | OpTrunc => RErr EIncomplete st
-          | OpBad => RErr EBadOp st
+          | OpOk o rest => run_op o (tick st) (fun st' => go st' rest)
+          | OpTrunc => RErr EIncomplete (tick st)
+          | OpBad => RErr EBadOp (tick st)
           end
         end
       end
@@ -383,6 +387,9 @@ Proof.
   - apply inv_with_pend, HI.
 Qed.
 
+Lemma inv_tick st : Inv st -> Inv (tick st).
+Proof. unfold Inv; sfields; tauto. Qed.
+
 Lemma inv_enter st : Inv st -> (depth st < t2_max_depth)%nat -> Inv (enter st).
 Proof. unfold Inv, enter; sfields. lia. Qed.
 
@@ -403,7 +410,12 @@ Section GOOD.
     - destruct code; [|cbn in Hlen; lia]. destruct (pend st); cbn; auto.
     - destruct code as [|b r]; [destruct (pend st); cbn; auto|].
       destruct (pend st) as [|p].
-      + destruct (lex_num (b :: r)) as [v rest| |] eqn:EN.
+      + pose proof (inv_tick st HI) as HIt.
+        apply good_same_depth with (a := tick st); [reflexivity|].
+        assert (Hdt : (d0 <= S (depth (tick st)))%nat) by exact Hd.
+        clear HI Hd. set (st1 := tick st) in *. clearbody st1. clear st. rename st1 into st.
+        rename HIt into HI. rename Hdt into Hd.
+        destruct (lex_num (b :: r)) as [v rest| |] eqn:EN.
         * apply lex_num_shorter in EN. unfold pushk.
           destruct (length (stk st) <? t2_max_stack)%nat eqn:L; [|cbn; auto].
           apply Nat.ltb_lt in L.
@@ -415,10 +427,10 @@ Section GOOD.
           apply lex_op_shorter in EO. unfold run_op.
           pose proof (do_op_post o st HI) as HP.
           destruct (do_op o st) as [st'|st'| |g v st'|e|]; cbn [op_post] in HP; try (cbn; tauto).
-          -- destruct HP as [HI' Hd'].
+          -- destruct HP as (HI' & Hd' & _).
              apply good_same_depth with (a := st'); [assumption|].
              apply IHn; [cbn in *; lia|assumption|lia].
-          -- destruct HP as [HI' Hd'].
+          -- destruct HP as (HI' & Hd' & _).
              destruct (t2_max_depth <=? depth st')%nat eqn:LD; [cbn; auto|].
              apply Nat.leb_gt in LD.
              destruct (lookup (if g then gsubrs else subrs) v) as [body|]; [|cbn; auto].
@@ -492,7 +504,8 @@ Section APP.
       { rewrite go_step in H. destruct (pend st); inversion H; subst. reflexivity. }
       rewrite go_step in H. cbn [app]. rewrite go_step.
       destruct (pend st) as [|p0].
-      + destruct (lex_num (b :: r)) as [v rest| |] eqn:EN.
+      + set (st1 := tick st) in *. clearbody st1. clear st. rename st1 into st.
+        destruct (lex_num (b :: r)) as [v rest| |] eqn:EN.
         * pose proof (lex_num_shorter _ _ _ EN) as Hs.
           change (b :: r ++ q) with ((b :: r) ++ q). rewrite (lex_num_app _ q _ _ EN).
           unfold pushk in *. destruct (length (stk st) <? t2_max_stack)%nat; [|discriminate].
@@ -619,31 +632,32 @@ Section FAULTS.
   (* a 49th operand *)
   Lemma overflow_rejected st code v rest :
     pend st = O -> (t2_max_stack <= length (stk st))%nat -> lex_num code = NumOk v rest ->
-    go st code = RErr EOverflow st.
+    go st code = RErr EOverflow (tick st).
   Proof.
     intros Hp Hl Hn. rewrite go_step. destruct code as [|b r]; [discriminate|].
     rewrite Hp, Hn. unfold pushk.
-    destruct (length (stk st) <? t2_max_stack)%nat eqn:L; [apply Nat.ltb_lt in L; lia|reflexivity].
+    destruct (length (stk (tick st)) <? t2_max_stack)%nat eqn:L;
+      [apply Nat.ltb_lt in L; sfields; lia|reflexivity].
   Qed.
 
   (* an operand cut off by the end of the code *)
   Lemma truncated_operand_rejected st code :
-    pend st = O -> lex_num code = NumTrunc -> go st code = RErr EIncomplete st.
+    pend st = O -> lex_num code = NumTrunc -> go st code = RErr EIncomplete (tick st).
   Proof.
     intros Hp Hn. rewrite go_step. destruct code as [|b r]; [discriminate|]. rewrite Hp, Hn. reflexivity.
   Qed.
 
   (* a reserved operator *)
   Lemma reserved_op_rejected st code :
-    pend st = O -> lex_num code = NotNum -> lex_op code = OpBad -> go st code = RErr EBadOp st.
+    pend st = O -> lex_num code = NotNum -> lex_op code = OpBad -> go st code = RErr EBadOp (tick st).
   Proof.
     intros Hp Hn Ho. rewrite go_step. destruct code as [|b r]; [discriminate|]. rewrite Hp, Hn, Ho. reflexivity.
   Qed.
 
   (* an operator whose semantics reports an error *)
   Lemma op_error_rejected st code o rest e :
-    pend st = O -> lex_num code = NotNum -> lex_op code = OpOk o rest -> do_op o st = PErr e ->
-    go st code = RErr e st.
+    pend st = O -> lex_num code = NotNum -> lex_op code = OpOk o rest -> do_op o (tick st) = PErr e ->
+    go st code = RErr e (tick st).
   Proof.
     intros Hp Hn Ho Hd. rewrite go_step. destruct code as [|b r]; [discriminate|].
     rewrite Hp, Hn, Ho. unfold run_op. rewrite Hd. reflexivity.
@@ -654,22 +668,23 @@ Section FAULTS.
     pend st = O -> lex_num code = NotNum -> lex_op code = OpOk o rest ->
     (o = OCallsubr \/ o = OCallgsubr) -> stk st = v :: r -> is_int v = true ->
     ((t2_max_depth <= depth st)%nat ->
-       go st code = RErr EDepth (with_stk r st)) /\
+       go st code = RErr EDepth (with_stk r (tick st))) /\
     ((depth st < t2_max_depth)%nat ->
        lookup (match o with OCallgsubr => gsubrs | _ => subrs end) (to_int v) = None ->
-       go st code = RErr EBadSubr (with_stk r st)).
+       go st code = RErr EBadSubr (with_stk r (tick st))).
   Proof.
     intros Hp Hn Ho Hc Hs Hi. rewrite go_step. destruct code as [|b c]; [discriminate|].
     rewrite Hp, Hn, Ho. unfold run_op.
-    destruct Hc as [-> | ->]; cbn [do_op]; rewrite Hs, Hi; split.
-    - intros Hd. replace (t2_max_depth <=? depth (with_stk r st))%nat with true; [reflexivity|].
+    assert (Hs' : stk (tick st) = v :: r) by exact Hs.
+    destruct Hc as [-> | ->]; cbn [do_op]; rewrite Hs', Hi; split.
+    - intros Hd. replace (t2_max_depth <=? depth (with_stk r (tick st)))%nat with true; [reflexivity|].
       symmetry. apply Nat.leb_le. exact Hd.
-    - intros Hd Hl. replace (t2_max_depth <=? depth (with_stk r st))%nat with false.
+    - intros Hd Hl. replace (t2_max_depth <=? depth (with_stk r (tick st)))%nat with false.
       + rewrite Hl. reflexivity.
       + symmetry. apply Nat.leb_gt. exact Hd.
-    - intros Hd. replace (t2_max_depth <=? depth (with_stk r st))%nat with true; [reflexivity|].
+    - intros Hd. replace (t2_max_depth <=? depth (with_stk r (tick st)))%nat with true; [reflexivity|].
       symmetry. apply Nat.leb_le. exact Hd.
-    - intros Hd Hl. replace (t2_max_depth <=? depth (with_stk r st))%nat with false.
+    - intros Hd Hl. replace (t2_max_depth <=? depth (with_stk r (tick st)))%nat with false.
       + rewrite Hl. reflexivity.
       + symmetry. apply Nat.leb_gt. exact Hd.
   Qed.
@@ -677,7 +692,7 @@ Section FAULTS.
   (* an error inside a subroutine is the error of the caller *)
   Lemma callee_error_propagates st code o rest g v st1 body e s :
     pend st = O -> lex_num code = NotNum -> lex_op code = OpOk o rest ->
-    do_op o st = PCall g v st1 -> (depth st1 < t2_max_depth)%nat ->
+    do_op o (tick st) = PCall g v st1 -> (depth st1 < t2_max_depth)%nat ->
     lookup (if g then gsubrs else subrs) v = Some body ->
     call (enter st1) body = RErr e s ->
     go st code = RErr e s.
@@ -730,7 +745,8 @@ Proof.
   - destruct code as [|b r].
     { destruct (pend st) eqn:E; inversion H; subst; assumption. }
     destruct (pend st) as [|p0].
-    + destruct (lex_num (b :: r)) as [v rest| |] eqn:EN; try discriminate.
+    + set (st1 := tick st) in *. clearbody st1. clear st. rename st1 into st.
+      destruct (lex_num (b :: r)) as [v rest| |] eqn:EN; try discriminate.
       * pose proof (lex_num_shorter _ _ _ EN) as Hs. unfold pushk in H.
         destruct (length (stk st) <? t2_max_stack)%nat; [|discriminate].
         eapply IHn; [|exact H]. cbn in *; lia.
@@ -791,15 +807,205 @@ Proof.
   - intros Hn. rewrite (truncated_operand_rejected _ _ _ _ _ Hpend Hn). reflexivity.
   - intros Hn Ho. rewrite (reserved_op_rejected _ _ _ _ _ Hpend Hn Ho). reflexivity.
   - intros o rest Hn Ho Hf.
-    assert (He : exists e, do_op o st' = PErr e).
+    assert (He : exists e, do_op o (tick st') = PErr e).
     { destruct Hf as [Hf|[[Hf1 Hf2]|Hf]].
-      - apply illegal_count_rejected; assumption.
+      - apply illegal_count_rejected; exact Hf.
       - apply draw_before_move_rejected; assumption.
-      - exists EUnderflow. apply underflow_rejected; assumption. }
+      - exists EUnderflow. apply underflow_rejected; exact Hf. }
     destruct He as [e He]. exists e.
     rewrite (op_error_rejected _ _ _ _ _ o rest e Hpend Hn Ho He). reflexivity.
   - intros o rest v r Hn Ho Hc Hs Hi Hl.
     destruct (bad_call_rejected subrs gsubrs (exec subrs gsubrs t2_max_depth) st' code o rest v r
                 Hpend Hn Ho Hc Hs Hi) as [_ Hb].
     unfold t2_max_depth in *. rewrite Hb; [reflexivity|lia|assumption].
+Qed.
+
+(* ------------------------------------------------------------------ *)
+(* How much work a charstring can cause                                *)
+
+Lemma assoc_len k l d m :
+  (length d <= m)%nat -> (forall p, In p l -> (length (snd p) <= m)%nat) ->
+  (length (assoc_z k l d) <= m)%nat.
+Proof.
+  intros Hd. induction l as [|[k' v] t IH]; intros Hl; cbn [assoc_z]; [exact Hd|].
+  destruct (k =? k').
+  - apply (Hl (k', v)). left; reflexivity.
+  - apply IH. intros p Hp. apply Hl. right; exact Hp.
+Qed.
+
+Lemma tab_maxlen_ge t :
+  (length (t_default t) <= tab_maxlen t)%nat /\
+  (forall p, In p (t_special t) -> (length (snd p) <= tab_maxlen t)%nat).
+Proof.
+  unfold tab_maxlen. induction (t_special t) as [|q l IH]; cbn [fold_right].
+  - split; [lia|intros p []].
+  - destruct IH as [IH1 IH2]. split; [lia|].
+    intros p [<-|Hp]; [lia|]. specialize (IH2 p Hp). lia.
+Qed.
+
+Lemma lookup_len t v body : lookup t v = Some body -> (length body <= tab_maxlen t)%nat.
+Proof.
+  unfold lookup. destruct (_ && _); [|discriminate]. intros H; inversion H; subst.
+  destruct (tab_maxlen_ge t) as [H1 H2]. apply assoc_len; assumption.
+Qed.
+
+Section STEPS.
+  Variable subrs gsubrs : subrtab.
+  Variable call : state -> list N -> res.
+  Variable d0 : nat.
+  Variable M : nat.
+  Hypothesis HM : (tab_maxlen subrs <= M)%nat /\ (tab_maxlen gsubrs <= M)%nat.
+
+  Local Open Scope N_scope.
+  Definition P : N := N.of_nat M + 1.
+  Definition room (st : state) : N := P ^ N.of_nat (t2_max_depth - depth st).
+  Definition sbound (st0 : state) (len : nat) (r : res) : Prop :=
+    final_steps r <= nsteps st0 + N.of_nat len * room st0.
+
+  Hypothesis Hcall : forall st body, Inv st -> (d0 <= depth st)%nat -> (length body <= M)%nat ->
+    good st (call st body) /\ sbound st (length body) (call st body).
+
+  Lemma room_pos st : 1 <= room st.
+  Proof.
+    unfold room, P.
+    assert (H : (N.of_nat M + 1) ^ N.of_nat (t2_max_depth - depth st) <> 0) by (apply N.pow_nonzero; lia).
+    lia.
+  Qed.
+
+  Lemma room_enter st : (depth st < t2_max_depth)%nat -> room st = P * room (enter st).
+  Proof.
+    intros H. unfold room, enter; sfields.
+    replace (t2_max_depth - depth st)%nat with (S (t2_max_depth - S (depth st)))%nat by lia.
+    rewrite Nat2N.inj_succ, N.pow_succ_r'. reflexivity.
+  Qed.
+
+  Lemma sbound_same a b len r :
+    nsteps a = nsteps b -> depth a = depth b -> sbound a len r -> sbound b len r.
+  Proof. unfold sbound, room. intros -> ->. auto. Qed.
+
+  Lemma sbound_weaken st len len' extra r :
+    final_steps r <= nsteps st + extra + N.of_nat len * room st ->
+    extra + N.of_nat len * room st <= N.of_nat len' * room st ->
+    sbound st len' r.
+  Proof. unfold sbound. lia. Qed.
+
+  Lemma go_steps : forall n code st,
+    (length code <= n)%nat -> Inv st -> (d0 <= S (depth st))%nat ->
+    sbound st (length code) (go subrs gsubrs call st code).
+  Proof.
+    assert (Hgood : forall st body, Inv st -> (d0 <= depth st)%nat -> (length body <= M)%nat ->
+                    good st (call st body)) by (intros; apply Hcall; assumption).
+    induction n; intros code st Hlen HI Hd; rewrite go_step.
+    - destruct code; [|cbn in Hlen; lia]. unfold sbound. destruct (pend st); cbn; lia.
+    - destruct code as [|b r]; [unfold sbound; destruct (pend st); cbn; lia|].
+      pose proof (room_pos st) as HR.
+      destruct (pend st) as [|p].
+      + (* one step *)
+        assert (Htick : forall len r0, (len < length (b :: r))%nat ->
+                  sbound (tick st) len r0 -> sbound st (length (b :: r)) r0).
+        { intros len r0 Hl Hs. unfold sbound in *. unfold room in *. sfields.
+          set (X := P ^ N.of_nat (t2_max_depth - depth st)) in *.
+          assert (N.of_nat len + 1 <= N.of_nat (length (b :: r))) by lia.
+          nia. }
+        assert (Herr : forall e, sbound st (length (b :: r)) (RErr e (tick st))).
+        { intros e. unfold sbound. cbn [final_steps final_state]. sfields. cbn [length].
+          rewrite Nat2N.inj_succ. nia. }
+        pose proof (inv_tick st HI) as HIt.
+        destruct (lex_num (b :: r)) as [v rest| |] eqn:EN.
+        * pose proof (lex_num_shorter _ _ _ EN) as Hs. unfold pushk.
+          destruct (length (stk (tick st)) <? t2_max_stack)%nat eqn:L; [|apply Herr].
+          apply Nat.ltb_lt in L.
+          apply Htick with (len := length rest); [exact Hs|].
+          apply sbound_same with (a := with_stk (v :: stk (tick st)) (tick st)); [reflexivity|reflexivity|].
+          apply IHn; [cbn in *; lia| |exact Hd].
+          apply inv_with_stk; [assumption|cbn [length]; lia].
+        * apply Herr.
+        * destruct (lex_op (b :: r)) as [o rest| |] eqn:EO; [|apply Herr|apply Herr].
+          pose proof (lex_op_shorter _ _ _ EO) as Hs. unfold run_op.
+          pose proof (do_op_post o (tick st) HIt) as HP.
+          destruct (do_op o (tick st)) as [st'|st'| |g v st'|e|]; cbn [op_post] in HP.
+          -- destruct HP as (HI' & Hd' & Hn').
+             apply Htick with (len := length rest); [exact Hs|].
+             apply sbound_same with (a := st'); [assumption|assumption|].
+             apply IHn; [cbn in *; lia|assumption|sfields; lia].
+          -- destruct HP as (HI' & Hd' & Hn').
+             unfold sbound. cbn [final_steps final_state]. rewrite Hn'. sfields. cbn [length].
+             rewrite Nat2N.inj_succ. nia.
+          -- unfold sbound. cbn [final_steps final_state]. sfields. cbn [length].
+             rewrite Nat2N.inj_succ. nia.
+          -- destruct HP as (HI' & Hd' & Hn').
+             assert (Herr' : forall e, sbound st (length (b :: r)) (RErr e st')).
+             { intros e. unfold sbound. cbn [final_steps final_state]. rewrite Hn'. sfields. cbn [length].
+               rewrite Nat2N.inj_succ. nia. }
+             destruct (t2_max_depth <=? depth st')%nat eqn:LD; [apply Herr'|].
+             apply Nat.leb_gt in LD.
+             destruct (lookup (if g then gsubrs else subrs) v) as [body|] eqn:EL; [|apply Herr'].
+             assert (Hbl : (length body <= M)%nat).
+             { apply lookup_len in EL. destruct g; lia. }
+             assert (HD1 : (d0 <= depth (enter st'))%nat) by (unfold enter; sfields; lia).
+             destruct (Hcall (enter st') body (inv_enter st' HI' LD) HD1 Hbl) as [HG HS].
+             (* cost of the callee *)
+             assert (Hcal : final_steps (call (enter st') body) <= nsteps st + room st).
+             { unfold sbound in HS.
+               assert (Er : room st = P * room (enter st')).
+               { rewrite <- (room_enter st' LD). unfold room. rewrite Hd'. reflexivity. }
+               assert (En : nsteps (enter st') = nsteps st + 1).
+               { unfold enter; sfields. rewrite Hn'. reflexivity. }
+               rewrite En in HS. rewrite Er.
+               pose proof (room_pos (enter st')) as HR'.
+               assert (Hb : N.of_nat (length body) <= N.of_nat M) by lia.
+               unfold P. set (Y := room (enter st')) in *. nia. }
+             destruct (call (enter st') body) as [s|s|s|e s|s|] eqn:EC; cbn [good] in HG.
+             ++ unfold sbound. cbn [final_steps final_state] in *. cbn [length]. rewrite Nat2N.inj_succ. nia.
+             ++ destruct HG as [HIs Hds].
+                assert (Hs2 : sbound (leave s) (length rest) (go subrs gsubrs call (leave s) rest)).
+                { apply IHn; [cbn in *; lia|apply inv_leave; assumption|].
+                  unfold leave, enter in *; sfields; lia. }
+                unfold sbound in *. cbn [final_steps final_state] in Hcal.
+                assert (Er : room (leave s) = room st).
+                { unfold room. unfold leave, enter in *; sfields. rewrite Hds, Hd'. cbn. reflexivity. }
+                rewrite Er in Hs2.
+                assert (En : nsteps (leave s) = nsteps s) by reflexivity. rewrite En in Hs2.
+                assert (N.of_nat (length rest) + 1 <= N.of_nat (length (b :: r))) by lia.
+                nia.
+             ++ unfold sbound. cbn [final_steps final_state] in *. cbn [length]. rewrite Nat2N.inj_succ. nia.
+             ++ unfold sbound. cbn [final_steps final_state] in *. cbn [length]. rewrite Nat2N.inj_succ. nia.
+             ++ unfold sbound. cbn [final_steps final_state] in *. cbn [length]. rewrite Nat2N.inj_succ. nia.
+             ++ contradiction.
+          -- apply Herr.
+          -- unfold sbound. cbn [final_steps final_state]. sfields. cbn [length].
+             rewrite Nat2N.inj_succ. nia.
+      + destruct (feed_mask_inv b p st HI) as [HI' Hd'].
+        assert (Hs2 : sbound (feed_mask b p st) (length r) (go subrs gsubrs call (feed_mask b p st) r)).
+        { apply IHn; [cbn in *; lia|assumption|lia]. }
+        unfold sbound in *.
+        assert (Er : room (feed_mask b p st) = room st) by (unfold room; rewrite Hd'; reflexivity).
+        assert (En : nsteps (feed_mask b p st) = nsteps st) by (unfold feed_mask; destruct p; reflexivity).
+        rewrite Er, En in Hs2. cbn [length]. rewrite Nat2N.inj_succ. nia.
+  Qed.
+End STEPS.
+
+Lemma exec_steps subrs gsubrs M :
+  (tab_maxlen subrs <= M)%nat /\ (tab_maxlen gsubrs <= M)%nat ->
+  forall fuel st code,
+    Inv st -> (S t2_max_depth <= depth st + fuel)%nat ->
+    sbound M st (length code) (exec subrs gsubrs fuel st code).
+Proof.
+  intros HM. induction fuel; intros st code HI Hf.
+  - exfalso. unfold Inv in HI. lia.
+  - cbn [exec].
+    apply go_steps with (d0 := (S t2_max_depth - fuel)%nat) (n := length code); auto; [|lia].
+    intros st' body HI' Hd' Hb. split.
+    + apply exec_good; [assumption|lia].
+    + apply IHfuel; [assumption|lia].
+Qed.
+
+Lemma steps_bound_lemma subrs gsubrs code :
+  (final_steps (S_t2_state subrs gsubrs code) <= t2_step_bound subrs gsubrs code)%N.
+Proof.
+  unfold S_t2_state, t2_step_bound.
+  pose proof (exec_steps subrs gsubrs (Nat.max (tab_maxlen subrs) (tab_maxlen gsubrs))
+                (conj (Nat.le_max_l _ _) (Nat.le_max_r _ _)) t2_fuel init_state code inv_init) as H.
+  unfold sbound, room, P in H. cbn [nsteps depth init_state] in H.
+  rewrite Nat.sub_0_r in H. apply H. unfold t2_fuel. cbn. lia.
 Qed.
